@@ -576,13 +576,18 @@ func (ctx *Context) evaluate() {
 
 			step := IntType(1)
 			length := _b - _a
+			if (_b >= _a) != (length >= 0) {
+				// 两端相距超过整数范围，差值溢出
+				ctx.Error = errors.New("不能一次性创建过长的数组")
+				return
+			}
 			if length < 0 {
 				step = -1
 				length = -length
 			}
 			length += 1
 
-			if length > 512 {
+			if length > 512 || length <= 0 {
 				ctx.Error = errors.New("不能一次性创建过长的数组")
 				return
 			}
